@@ -3,6 +3,7 @@ Spec: IndexStore.tla (WLock/WLockFail/WUnlock guards, LockMutex, G_ReadToc under
 lock, G_TocRename: one generation forward from the newest, content chain, LockFreedom).
 Binding: storage traces of racing writer threads and processes (real flock), of the
 AsyncWriter and BufferedWriter front-ends, validated by IndexStoreTrace.tla."""
+import json
 import os
 import random
 import threading
@@ -372,6 +373,154 @@ def failing_blocks(run, rng, n):
     return items
 
 
+_ASYNC_CHILD = r"""
+import sys
+from whoosh import index, writing
+ix = index.open_dir(sys.argv[1])
+def say(s):
+    sys.stdout.write(s + "\n")
+    sys.stdout.flush()
+aw = writing.AsyncWriter(ix, delay=0.02)
+say("acreate " + ("direct" if aw.writer is not None else "deferred"))
+for k in sys.argv[2].split(","):
+    aw.add_document(key=k, body=u"x")
+    say("arecord " + k)
+if sys.argv[3] == "early":
+    sys.stdin.readline()          # the other writer commits before this commit() is called
+aw.commit()
+say("acommit")
+say("mainend")
+"""
+
+
+def async_short_lived(run, rng, n):
+    """AsyncFrontend.tla: a short-lived program commits through an AsyncWriter while another process holds the
+    index lock, and ends; what its commit() promised must be in the index once the program is gone, one
+    generation per commit.  Design model checked by TLC (safety, and under fairness that the deferred commit is
+    applied); recorded runs of the real thing validated by AsyncFrontendTrace.tla."""
+    import subprocess
+    import sys
+    import shutil
+    import tempfile
+    from whoosh import fields, index
+    from harness import traces
+    for cfg in ("AsyncFrontendMC.cfg",):
+        res = tlc.run_tlc("AsyncFrontend", cfg, timeout=600, workers=4)
+        run.add_tlc("AsyncFrontend/" + cfg, res)
+        if res.violation:
+            raise tlc.TLCError("AsyncFrontend.tla: %s\n%s" % (res.violation, tlc.tail(res.stdout, 30)))
+    res = tlc.run_tlc("AsyncFrontend", "AsyncFrontendMC_daemon.cfg", timeout=600, workers=4, check=False)
+    if res.violation != "invariant Durable":
+        run.machinery("vacuity: AsyncFrontend.tla with a daemon thread does not violate Durable (%r)" % res.violation)
+    recs, metas = [], []
+    for i in range(n):
+        variant = ["held", "early", "free", "held"][i % 4]
+        keys = ["a1", "a2", "a3"][:rng.randrange(1, 4)]
+        d = tempfile.mkdtemp(prefix="verif-c04-async-")
+        tr = []
+        try:
+            ix = index.create_in(d, fields.Schema(key=fields.ID(stored=True, unique=True), body=fields.TEXT))
+            holder = None
+            if variant != "free":
+                holder = ix.writer()
+                holder.add_document(key=u"h", body=u"x")
+                tr.append({"ev": "hacquire"})
+            p = subprocess.Popen([sys.executable, "-c", _ASYNC_CHILD, d, ",".join(keys), variant],
+                                 stdin=subprocess.PIPE, stdout=subprocess.PIPE, stderr=subprocess.PIPE)
+            exited = False
+            try:
+                import queue
+                lines = queue.Queue()
+
+                def pump():
+                    for raw in iter(p.stdout.readline, b""):
+                        lines.put(raw.decode().strip())
+                    lines.put("")
+                threading.Thread(target=pump, daemon=True).start()
+                while True:
+                    try:
+                        line = lines.get(timeout=60)
+                    except queue.Empty:
+                        p.kill()
+                        run.violation({"check": "c04-asyncwriter-exit", "variant": variant, "event": "program-hung"},
+                                      {"trace": tr})
+                        break
+                    if not line:
+                        break
+                    w = line.split()
+                    ev = {"ev": w[0]}
+                    if w[0] == "acreate":
+                        ev["mode"] = w[1]
+                    if w[0] == "arecord":
+                        ev["k"] = w[1]
+                    tr.append(ev)
+                    if variant == "early" and w[0] == "arecord" and w[1] == keys[-1]:
+                        holder.commit()
+                        tr.append({"ev": "hcommit"})
+                        holder = None
+                        p.stdin.write(b"go\n")
+                        p.stdin.flush()
+                    if w[0] == "mainend":
+                        break
+                # the program's last statement has run; is the process still there while its commit is pending?
+                time.sleep(0.3)
+                if p.poll() is not None:
+                    tr.append({"ev": "exit"})
+                    exited = True
+                if holder is not None:
+                    holder.commit()
+                    tr.append({"ev": "hcommit"})
+                try:
+                    p.wait(60)
+                except subprocess.TimeoutExpired:
+                    p.kill()
+                    run.violation({"check": "c04-asyncwriter-exit", "variant": variant, "event": "never-exited"},
+                                  {"trace": tr})
+                    continue
+                if not exited:
+                    tr.append({"ev": "exit"})
+                err = p.stderr.read().decode()[-400:]
+                if p.returncode != 0:
+                    run.violation({"check": "c04-asyncwriter-exit", "variant": variant, "event": "child-failed"},
+                                  {"trace": tr, "stderr": err})
+                    continue
+            finally:
+                for f in (p.stdin, p.stdout, p.stderr):
+                    try:
+                        f.close()
+                    except Exception:
+                        pass
+            ix2 = index.open_dir(d)
+            with ix2.searcher() as s_:
+                ks = sorted(x["key"] for x in s_.all_stored_fields())
+            tr.append({"ev": "probe", "keys": ks, "gen": ix2.latest_generation()})
+            ix2.close()
+            ix.close()
+        finally:
+            shutil.rmtree(d, ignore_errors=True)
+        for e in tr:
+            e.setdefault("mode", "")
+            e.setdefault("k", "")
+            e.setdefault("keys", [])
+            e.setdefault("gen", 0)
+        recs.append(tr)
+        metas.append({"variant": variant, "keys": keys})
+        run.count(len(tr))
+    v = traces.validate(run, "AsyncFrontendTrace", "AsyncFrontendTrace.cfg", recs, hwm=True)
+    for r in v.rejects:
+        tr = recs[r["tid"]]
+        ev = tr[r["l"] - 1] if r["l"] - 1 < len(tr) else {"ev": "?"}
+        run.violation({"check": "c04-asyncwriter-exit", "variant": metas[r["tid"]]["variant"], "event": ev["ev"]},
+                      {"trace": tr, "rejected_at": r["l"], "meta": metas[r["tid"]]})
+    for i, tr in enumerate(recs):
+        if any(e["ev"] == "acreate" and e["mode"] == "deferred" for e in tr):
+            run.nontriv(("async-exit", json.dumps(tr, sort_keys=True)))
+    run.extra["asyncwriter_short_lived"] = {"runs": len(recs), "accepted": v.accepted,
+                                            "deferred": sum(1 for tr in recs for e in tr if e.get("mode") == "deferred")}
+    if recs:
+        run.sample({"asyncwriter_run": [[e["ev"], e["mode"] or e["k"] or e["keys"]] for e in recs[0]]})
+
+
 def check(run):
     quick = run.tier == "quick"
     rng = random.Random(run.seed + 404)
@@ -394,6 +543,7 @@ def check(run):
     for it in items:
         for err in it.get("errors", []):
             run.violation({"check": "c04-exception", "err": err[:80]}, {"cfg": it["cfg"], "seed": it["seed"]})
+    async_short_lived(run, rng, 4 if quick else 24)
     run.extra["lock_refusals_observed"] = sum(1 for it in items for e in it["trace"]
                                               if e["ev"] == "lock" and not e.get("res", True))
 
